@@ -635,6 +635,25 @@ def val4(ctx, pid):
             ctx.ok("listlike:Nibbles.__new__", f.loc(), "TypeError is guarded by `not is_list_like(..)`", nontrivial=False)
         else:
             ctx.bad("listlike:Nibbles.__new__", f.loc(), "the non-list-like test guarding TypeError is gone")
+        # no other method of Nibbles may build an instance behind the validating constructor's back
+        ncls = ctx.P.cls("trie.typing:Nibbles")
+        byp = None
+        for g in ncls.methods.values():
+            if g.name == "__new__":
+                continue
+            for n_ in walk_shallow(g.node):
+                if isinstance(n_, ast.Call) and ast.unparse(n_.func) in ("tuple.__new__", "super().__new__", "object.__new__"):
+                    byp = (g, n_)
+        add = ncls.methods.get("__add__")
+        if byp:
+            ctx.bad("constructor-bypass:Nibbles.%s" % byp[0].name, byp[0].loc(byp[1]), "`%s` builds a Nibbles without the per-element validation of Nibbles.__new__ (the exact-type fast path would then trust it everywhere)" % ast.unparse(byp[1])[:60])
+        elif add is not None:
+            rets = [n_ for n_ in walk_shallow(add.node) if isinstance(n_, ast.Return)]
+            ok = rets and all(isinstance(r.value, ast.Call) and ast.unparse(r.value.func) in ("Nibbles", "type(self)", "self.__class__") for r in rets)
+            if ok:
+                ctx.ok("constructor-bypass:Nibbles", add.loc(), "concatenation re-validates through Nibbles(..)")
+            else:
+                ctx.bad("constructor-bypass:Nibbles.__add__", add.loc(), "Nibbles.__add__ does not return Nibbles(..) of the concatenation")
     # conversion before use in public nibble-path functions
     mods = ["trie.hexary", "trie.fog"] if pid == "C18" else ["trie.fog"]
     n = 0
